@@ -179,8 +179,8 @@ func (h *Handler) handleRequest(host *packet.Host, p packet.DHCP4, options packe
 		//  - client tries to pick up previosly know IP address, with a request packet.
 		//  - client does not send discover packet
 
-		// Update session with DHCP details - almost always a new host IP will be setup
-		h.session.DHCPv4Update(p.CHAddr(), reqIP, nameEntry)
+		// the session is told about the address only if the request is honoured (below, after the ACK is built): a
+		// refused request must not re-bind somebody else's address to this client in the session table
 
 		if lease.State == StateFree {
 			Logger.Msg("client lease does not exist").ByteArray("xid", p.XId()).IP("ip", reqIP).Write()
